@@ -115,6 +115,15 @@ class Emitter:
             return f"ENV.obj({self.site()})"
         if op == "next":
             return f"next({x[1]}, -1)"
+        if op == "lamw":
+            # (lambda _q: (y := e))(0): the assignment expression binds the *lambda's* y, not the
+            # enclosing function's -- never traced
+            saved, self.traced = self.traced, False
+            try:
+                inner = self.e(x[2])
+            finally:
+                self.traced = saved
+            return f"(lambda _q: ({x[1]} := {inner}))(0)"
         if op == "yieldfrom_e":
             # r = yield from <generator>: the delegate's return value
             return f"(yield from {self.e(x[1])})"
